@@ -111,6 +111,26 @@ prop("C07", ["PepitVerif/Props/C07.lean", "PepitVerif/Math/AFunSpec.lean", "Pepi
      direct=[oracle("c07_fuzz", 300, 6000)],
      assumptions=["exact arithmetic: the rounding of remainder / weight is not modelled"])
 
+prop("C08", ["PepitVerif/Props/C08.lean", "PepitVerif/Math/StepsSem.lean"],
+     streams=[stream("steps (all 8 steps, every option, leaf/composite functions, leaf/combination starts)", "steps", 300, 6000, offset=59)],
+     direct=[oracle("c08_steps", 300, 5000)],
+     assumptions=["real_sound is proved for the proximal, linear-optimisation and inexact-gradient steps; exact line search, Bregman and ε-subgradient/inexact-prox real sides are not formalised"])
+
+prop("C09", ["PepitVerif/Props/C09.lean", "PepitVerif/Math/Certificate.lean"], only=[r"C09\.", "cert_sound", "trace_mul_nonneg"],
+     streams=[stream("steps (recorded relations of the steps the examples are built from)", "steps", 100, 2000, offset=61),
+              stream("cls (class constraints the examples rely on)", "cls", 100, 2000, offset=67)],
+     direct=[oracle("c09_runs", 30, 400)],
+     trusted=["independent NumPy implementations of 10 method families (harness/oracles5.py), transcribed from the documented algorithms"],
+     assumptions=["that each example script implements the method its docstring names is not visible to Lean: sampled by real runs only",
+                  "solver accuracy (CLARABEL ~1e-8) enters the comparison with tolerance 1e-5 relative"])
+
+prop("C10", ["PepitVerif/Props/C10.lean"],
+     streams=[stream("tree (expression algebra the examples are written in)", "tree", 100, 1000, offset=71)],
+     direct=[oracle("c10_examples", 40, 103), oracle("c10_refs", 38, 400), oracle("c10_equivalent", 7, 7)],
+     trusted=["hand transcription of 19 published closed forms and their validity ranges (lean/PepitModel/Ref.lean), validated against the pinned tree",
+              "frozen reference table harness/ref_table.json (claim tight/upper per example, closed-form value at the suite tuple) generated from the pinned tree"],
+     assumptions=["'SDP optimum = closed form for all parameters' is a theorem of the literature per family and is not formalised: this property is decided mostly by correspondence on parameter grids"])
+
 prop("C11", ["PepitVerif/Props/C11.lean"],
      streams=[stream("collect+tee (Task call list of the real MosekWrapper on the stand-in vs model; dense data)", "collect", 150, 3000, env={"PEPV_TEE": "1", "STUBS": "1"}, offset=53)],
      direct=[oracle("c11_backends", 16, 200, stubs=True)],
